@@ -21,7 +21,7 @@ def eqFold (a b : String) : Bool := a.toList.map lowerChar == b.toList.map lower
 
 /-- Does the byte string start with CR LF CR LF? -/
 def startsBlank : Bytes → Bool
-  | 13 :: 10 :: 13 :: 10 :: _ => true
+  | a :: b :: c :: d :: _ => a == 13 && b == 10 && c == 13 && d == 10
   | _ => false
 
 /-- Length of the response head: index just past the first blank line, if there is one. -/
